@@ -133,9 +133,14 @@ def run_family(ctx):
         if r.violated:
             raise vlib.NoVerdict("RaftHost (2 replicas) violates %s: specification bug" % r.violated)
         if not quick:
-            r = ctx.tlc("RaftHost", "RaftHost_mc.cfg", timeout=3000, heap="20g", name="RaftHost-3")
+            # three replicas without a local snapshot (with one the model has not finished after 100 M generated states;
+            # snapshots are explored exhaustively with two replicas above, and by simulation below)
+            r = ctx.tlc("RaftHost", ctx.cfg("RaftHost_mc.cfg", {"MaxSnap": 0}), timeout=3000, heap="20g", name="RaftHost-3")
             if r.violated:
                 raise vlib.NoVerdict("RaftHost (3 replicas) violates %s: specification bug" % r.violated)
+            rs = ctx.tlc("RaftHost", "RaftHost_mc.cfg", simulate=60000, depth=80, workers=8, timeout=2400, heap="8g", name="RaftHost-3-snap-sim", count=False)
+            if rs.violated:
+                raise vlib.NoVerdict("RaftHost (3 replicas, one local snapshot, random behaviours) violates %s: specification bug" % rs.violated)
         ctx.cov["exhaustive"] = True
         for sw, val in (("RestartMode", '"start"'), ("SendPolicy", '"allFirst"'), ("SnapLabel", '"plusone"')):
             ov = {sw: val}
